@@ -154,7 +154,11 @@ def r4_queue(ctx):
             pb = [c for c in o.state.calls if c[0].endswith('VecDeque::<T, A>::push_back')]
             ok = len(gets) == 1 and gets[0][1][1] == suc
             if ok:
-                d = o.state.variants.get(calllog.call_term(gets[0]))
+                gt_ = calllog.call_term(gets[0])
+                d = o.state.variants.get(gt_)
+                if d is None:
+                    dt = T.typed(('discr', gt_), 'isize')
+                    d = 1 if ip.entails(o.state, eq(dt, I(1))) else 0 if ip.entails(o.state, ne(dt, I(1))) else None
                 if d == 1:
                     ok = not ins and not pb and o.value == FALSE
                     role = 'visited-node-ignored'
